@@ -43,6 +43,11 @@ def run(res, tier, replay):
             pt, base, plain = oabfmt.build_patch(rng, [(0, 1000), (ss, 0), (4096, 20000)])
             for bs in ([4096, 16] if tier == "quick" else [16, 17, 4096, 65536]):
                 lines.append(oablib.model_line_patch(pt, base)); scns.append(oablib.scn_patch(pt, base, bs)); meta.append(("patch drop-block source=%d buf=%d" % (ss, bs), plain))
+    # directed: stored blocks of odd and tiny sizes between compressed ones
+    for sizes, kinds in (([1, 7, 100, 333], [0, 0, 1, 0]), ([333, 1, 5000], [0, 0, 0]), ([0, 5, 0, 3], [0, 1, 0, 0])):
+        oab, plain = oabfmt.build_full(rng, sizes, kinds=kinds)
+        for bs in ([16, 4096] if tier == "quick" else [16, 17, 100, 4096]):
+            lines.append(oablib.model_line_full(oab, bs)); scns.append(oablib.scn_full(oab, bs)); meta.append(("full stored-odd sizes=%s buf=%d" % (sizes, bs), plain))
     rc, mo, err = vlib.run_lines(mexe, ["oab"], lines, timeout=3000)
     trs = scenario.run_scenarios(iexe, scns, timeout_each=60)
     diffs = []; nbad = 0
